@@ -46,6 +46,17 @@ def appendIndex (p : List Json) (o : List (String × Json)) (m : Metas) : List J
     (match keysOf m with | some ks => [Json.str (setkeysString ks)] | none => [])
   p ++ [.arr .raw items, .obj o]
 
+/-- `o.pathObject(metadata)`: the object that addresses a member of a set in a diff path: with set keys
+    only the set keys present in the member (the whole member when there are none) -/
+def pathObject (m : Metas) (kvs : List (String × Json)) : List (String × Json) :=
+  match keysOf m with
+  | none => kvs
+  | some ks =>
+    if ks.isEmpty then kvs
+    else
+      let id := kvs.filter (fun kv => ks.contains kv.1)
+      if id.isEmpty then kvs else id
+
 /-- `path.prependMetadataMerge()`. When the path already starts with a non-empty metadata array whose
     first entry is not "MERGE", the Go code builds `make(jsonArray, len+1)`, stores "MERGE" at index 0
     and then `copy`s the old metadata over it from index 0: MERGE is lost and the last slot stays a
@@ -100,8 +111,7 @@ def diffNode (m : Metas) (merge : Bool) (a b : Json) (p : List Json) : VDiff :=
     | .set =>
       match b' with
       | .arr .set ys =>
-        -- `!s1.Equals(n)`: no metadata
-        if merge && !(equals [] (.arr .set xs) (.arr .set ys)) then
+        if merge && !(equals m (.arr .set xs) (.arr .set ys)) then
           [{ path := prependMerge p, new := (Json.arr .set ys).nodeList }]
         else
           let parts := ksort (diffSetElems m merge p ys xs)
@@ -118,7 +128,7 @@ def diffNode (m : Metas) (merge : Bool) (a b : Json) (p : List Json) : VDiff :=
     | .mset =>
       match b' with
       | .arr .mset ys =>
-        if merge && !(equals [] (.arr .mset xs) (.arr .mset ys)) then
+        if merge && !(equals m (.arr .mset xs) (.arr .mset ys)) then
           [{ path := prependMerge p, new := (Json.arr .mset ys).nodeList }]
         else
           let xh := hashList m xs
@@ -208,7 +218,7 @@ def diffSetElems (m : Metas) (merge : Bool) (p : List Json) (ys : List Json) :
       | some y =>
         match x, y with
         | .obj kvs, .obj _ =>
-          (h, .sub (diffNode m merge (.obj kvs) y (appendIndex p kvs m))) :: rest
+          (h, .sub (diffNode m merge (.obj kvs) y (appendIndex p (pathObject m kvs) m))) :: rest
         | _, _ => rest
 termination_by xs => (sizeOf xs, 0)
 end
